@@ -64,8 +64,10 @@ theorem step_offerC (w : W) (f : List Nat) (h : tunSelC w = true) : step w (.off
 
 /-! ### the invariants -/
 
-/-- quiescent joint state, immediate mode; the duplicate memories hold only data queries older than the next one -/
-structure QuietImm (P : Par) (w : W) : Prop where
+/-- quiescent joint state, immediate mode; the duplicate memories hold only data queries older than the next one — with
+freshness slacks `sl` (data-CMC counter) and `sp` (ping seed): how many queries the client may have sent that the server
+never saw (1 on the clean path) -/
+structure QuietImmS (P : Par) (sl sp : Nat) (w : W) : Prop where
   ph : w.cs.ph = .tunnel
   cst : CStat P w.cs.c
   idleC : Client.isSending w.cs.c = false
@@ -76,15 +78,20 @@ structure QuietImm (P : Par) (w : W) : Prop where
   oq : (Server.getUser w.srv P.u).oqFilled = 0
   syncu : (Server.getUser w.srv P.u).inpacket.seqno = w.cs.c.outpkt.seqno
   syncd : (Server.getUser w.srv P.u).outpacket.seqno = w.cs.c.inpkt.seqno
-  aged : Aged P (Server.getUser w.srv P.u) w.cs.c.datacmc 1
-  paged : PAged P (Server.getUser w.srv P.u) w.cs.c.randSeed 1
+  aged : Aged P (Server.getUser w.srv P.u) w.cs.c.datacmc sl
+  paged : PAged P (Server.getUser w.srv P.u) w.cs.c.randSeed sp
 
-theorem QuietImm.quiet {P : Par} {w : W} (h : QuietImm P w) : quiet P.u w = true := by
+theorem QuietImmS.quiet {P : Par} {sl sp : Nat} {w : W} (h : QuietImmS P sl sp w) : quiet P.u w = true := by
   unfold World.quiet
   simp [h.up, h.down, h.idleC, h.idle.out, h.oq, h.idle.qs, h.idle.lazy, h.idle.q]
 
+/-- the quiescent state of the clean path: slack 1 -/
+abbrev QuietImm (P : Par) (w : W) : Prop := QuietImmS P 1 1 w
+
+theorem QuietImm.quiet {P : Par} {w : W} (h : QuietImm P w) : quiet P.u w = true := QuietImmS.quiet h
+
 /-- fragment `f` (offset `o`) of the upstream packet `out` is in flight towards the server -/
-structure UpFlight (P : Par) (out : List Nat) (w : W) (c0 : Client.Cli) (o f : Nat) : Prop where
+structure UpFlightS (P : Par) (sl sp : Nat) (out : List Nat) (w : W) (c0 : Client.Cli) (o f : Nat) : Prop where
   ph : w.cs.ph = .tunnel
   ready : CReady P c0 out o f
   cli : w.cs.c = { sentState c0 with sendPingSoon := 0 }
@@ -95,8 +102,10 @@ structure UpFlight (P : Par) (out : List Nat) (w : W) (c0 : Client.Cli) (o f : N
   oq : (Server.getUser w.srv P.u).oqFilled = 0
   expect : Expect (Server.getUser w.srv P.u) out c0.outpkt.seqno.toNat o f
   syncd : (Server.getUser w.srv P.u).outpacket.seqno = c0.inpkt.seqno
-  aged : Aged P (Server.getUser w.srv P.u) c0.datacmc 1
-  paged : PAged P (Server.getUser w.srv P.u) c0.randSeed 1
+  aged : Aged P (Server.getUser w.srv P.u) c0.datacmc sl
+  paged : PAged P (Server.getUser w.srv P.u) c0.randSeed sp
+
+abbrev UpFlight (P : Par) (out : List Nat) (w : W) (c0 : Client.Cli) (o f : Nat) : Prop := UpFlightS P 1 1 out w c0 o f
 
 theorem cstate_eta (cs : Client.CState) (h : cs.ph = .tunnel) : cs = ⟨cs.c, .tunnel⟩ := by
   cases cs; simp_all
@@ -121,9 +130,9 @@ theorem newPacket_ready {P : Par} {c : Client.Cli} (hc : CStat P c) (frame : Lis
     · exact hb b h
 
 /-- `offerC`: the frame is read, compressed, and its first fragment goes out -/
-theorem up_offer {P : Par} (hP : P.Ok) {w : W} (hq : QuietImm P w) (frame : List Nat) (hne : frame ≠ [])
+theorem up_offer {P : Par} (hP : P.Ok) {sl sp : Nat} {w : W} (hq : QuietImmS P sl sp w) (frame : List Nat) (hne : frame ≠ [])
     (hl : frame.length < 65536) (hb : Codec.Bytes frame) :
-    ∃ w1, step w (.offerC frame) = w1 ∧ UpFlight P (0x5a :: frame) w1 (newPacket w.cs.c frame) 0 0 ∧
+    ∃ w1, step w (.offerC frame) = w1 ∧ UpFlightS P sl sp (0x5a :: frame) w1 (newPacket w.cs.c frame) 0 0 ∧
       w1.tunS = w.tunS ∧ w1.tunC = w.tunC := by
   have hcs := cstate_eta w.cs hq.ph
   have hready := newPacket_ready hq.cst frame hl hb
